@@ -2,7 +2,13 @@ package props
 
 import (
 	"go/ast"
+	"go/parser"
+	"go/token"
 	"go/types"
+	"strconv"
+
+	"golang.org/x/tools/go/ssa"
+	"golang.org/x/tools/go/ssa/ssautil"
 
 	"zverif/checker/an"
 )
@@ -12,7 +18,9 @@ func init() { register("C34", c34) }
 func c34(p *an.Prog, r *an.R, tier string) {
 	r.Explanation = "C34 (structural clause): validation precedes mutation. In runSync the discovery of repositories (which reports duplicate names and duplicate sources as an error) and the reading of the inventory run, and their errors are tested, on every path before the calls that can remove or write shards (applyRemovals, indexRepositories); in removeRepositories the selection of records (ambiguous / not found errors) precedes applyRemovals the same way. (R2) in runSync the prune plan is applied before indexing rewrites shard files (also when deferred). Does NOT decide convergence (exactly one up-to-date repository per discovered repository and nothing else)."
 	r.Rule("C34.R1", "every path to applyRemovals/indexRepositories passes the validation call, and the validation's error is tested (== nil edge) before them")
+	r.Rule("C34.R3", "no update of the in-memory inventory is lost: in the functions of cmd/zoekt-local-sync a store to a field of a struct-typed local whose address never leaves the function (in particular a copy of a map element obtained by lookup) is followed on some path by a read of that field or of the whole variable (e.g. the write-back into the map) before it is overwritten; a store that no read can follow updated a copy only")
 	r.Rule("C34.R2", "runSync: applyRemovals is not reachable from indexRepositories without the inventory being read and the prune plan being computed again (the plan identifies shards by file path; indexing writes files of the same names)")
+	c34LostUpdates(p, r)
 	for _, spec := range []struct {
 		fn       string
 		validate []string
@@ -127,4 +135,75 @@ func c34(p *an.Prog, r *an.R, tier string) {
 			}
 		}
 	}
+}
+
+// c34LostUpdates: R3. recordsFromShards, selectRecords and the plan builders group shards per repository in maps
+// and structs; an append to a copy of a map element that is never written back silently drops shards from the
+// inventory, so removal and pruning leave them on disk.
+func c34LostUpdates(p *an.Prog, r *an.R) {
+	pk := p.Pkg(lsync)
+	if !r.Anchor(pk != nil, lsync) {
+		return
+	}
+	nf, nlocals := 0, 0
+	for _, f := range p.SSAFuncs() {
+		if p.PkgOfSSA(f) != pk {
+			continue
+		}
+		nf++
+		for _, ls := range an.LocalStructs(f) {
+			name := ls.Alloc.Comment
+			if name == "" || name == "complit" {
+				continue // the temporary of a composite literal: its field stores are the literal's initialisation
+			}
+			nlocals++
+			construct := an.SSAName(f) + "/local " + name + "/field-stores-observed"
+			if len(ls.Lost) == 0 {
+				r.OK("C34.R3", construct, ls.Alloc.Pos(), "every store to a field of this local can be followed by a read")
+				continue
+			}
+			what := "a struct-typed local"
+			if ls.FromMap {
+				what = "a copy of a map element"
+			}
+			r.Bad("C34.R3", construct, ls.Lost[0].Pos, "the store to field "+ls.Lost[0].Field+" of "+what+" is never read again and the variable is not written back: the update is lost (an inventory record then misses shards, which removal and pruning leave on disk)")
+		}
+	}
+	r.Fn(lsync + " (all " + strconv.Itoa(nf) + " functions, SSA)")
+	r.Assume("C34.R3 evaluated " + strconv.Itoa(nlocals) + " non-escaping named struct locals with field stores in " + strconv.Itoa(nf) + " functions")
+	r.Control("C34.R3/lost-store-detector", c34ControlLostStore())
+}
+
+// c34ControlLostStore: the detector must report the append to a copy of a map element in a tiny synthetic
+// function, and stay silent on its written-back sibling (type-checked and built to SSA in memory on every run).
+func c34ControlLostStore() bool {
+	const src = `package probe
+type rec struct{ n string; s []string }
+func lost(m map[string]rec, k, v string) {
+	x, ok := m[k]
+	if !ok { m[k] = rec{n: k, s: []string{v}}; return }
+	x.s = append(x.s, v)
+}
+func kept(m map[string]rec, k, v string) {
+	x := m[k]
+	x.s = append(x.s, v)
+	m[k] = x
+}`
+	fset := token.NewFileSet()
+	file, err := parser.ParseFile(fset, "probe.go", src, 0)
+	if err != nil {
+		return false
+	}
+	pkg, _, err := ssautil.BuildPackage(&types.Config{}, fset, types.NewPackage("probe", "probe"), []*ast.File{file}, ssa.SanityCheckFunctions)
+	if err != nil {
+		return false
+	}
+	lost, kept := 0, 0
+	for _, ls := range an.LocalStructs(pkg.Func("lost")) {
+		lost += len(ls.Lost)
+	}
+	for _, ls := range an.LocalStructs(pkg.Func("kept")) {
+		kept += len(ls.Lost)
+	}
+	return lost == 1 && kept == 0
 }
